@@ -364,3 +364,43 @@ func (r *Report) Finish(meta PropMeta, tier string, seed int, kf *KnownFindings,
 		r.Prop, tier, total, counts[Discharged], counts[Allowed], counts[KnownFinding], counts[Violated], counts[Undecided], len(r.Fatal), len(r.Controls))
 	return exit
 }
+
+// importRules: some clauses of a property are decided by rules that live with another property (the
+// conversion tables of C11 are also what C01's "holds the conversion of …" rests on). The named rules of
+// property `from` are evaluated and their obligations entered in this report under "<from>:<rule>", so
+// that a change breaking such a clause is reported by every property it breaks.
+func (c *Ctx) importRules(r *Report, from string, rules ...string) {
+	if c.noImports {
+		return
+	}
+	p := registry[from]
+	if p == nil {
+		r.Fatalf("importRules: unknown property %s", from)
+		return
+	}
+	sub := NewReport(from)
+	c.noImports = true
+	p.Run(c, sub, "quick")
+	c.noImports = false
+	want := map[string]bool{}
+	for _, n := range rules {
+		want[n] = true
+	}
+	for _, n := range rules {
+		ri := sub.rules[n]
+		if ri == nil {
+			r.Fatalf("importRules: %s has no rule %s", from, n)
+			continue
+		}
+		r.Rule(from+":"+n, "("+from+") "+ri.Text, ri.Floor)
+	}
+	for _, o := range sub.Obs {
+		if !want[o.Rule] {
+			continue
+		}
+		r.add(from+":"+o.Rule, o.Func, o.Construct, o.Pos, o.Status, o.Detail, o.NonTrivial)
+	}
+	for _, f := range sub.Fatal {
+		r.Fatalf("(imported from %s) %s", from, f)
+	}
+}
